@@ -1,0 +1,24 @@
+//go:build verif
+
+package common
+
+import "sync/atomic"
+
+var verifHook atomic.Pointer[func(string)]
+
+// SetVerifHook installs (or, with nil, removes) the callback invoked at every VerifPoint.
+func SetVerifHook(f func(name string)) {
+	if f == nil {
+		verifHook.Store(nil)
+		return
+	}
+	verifHook.Store(&f)
+}
+
+// VerifPoint calls the installed verification hook, if any. A hook may park the calling goroutine to
+// force a particular interleaving.
+func VerifPoint(name string) {
+	if f := verifHook.Load(); f != nil {
+		(*f)(name)
+	}
+}
